@@ -245,11 +245,30 @@ seq(prop="C14", lean_targets=["TransportVerif.Props.C14"], pkg="vnet", run="^Tes
          "line is judged (no panic, no forward before arrival+delay, arrival order, no duplicates, everything notified forwarded after draining). non-trivial = the timer arm runs while a sender "
          "sits between queueing and notifying, a notification arrives after the queue was drained, a tick, a forward; distinct = hash of the schedule",
     design_ref="DESIGN.md 7.14", technique="Lean 4 proof: timed step invariants of a transition system of the filter loop, its runtime timer and any number of senders (no panic, lower bound, FIFO exactly-once, progress); schedules replayed on the real DelayFilter under virtual time and a controlled scheduler",
-    level_text="PENDING", level_note="PENDING",
+    level_text='Theorems about a transition system of DelayFilter (loop with its runtime timer, any number of senders, every interleaving of queueing, notifying, select evaluations and timer expiries, every delay >= 0 including 0) in Props/C14.lean: no_panic (the loop never panics and never blocks on an empty timer channel), not_before_delay (nothing is handed downstream sooner than delay after it entered), fifo_exactly_once (forwarded ++ still queued = entered, in order), timer_never_dead (the timer is always armed or a tick is pending, at most max(1 min, delay) ahead) with tick_forwards_due_head as progress. The pinned tree panicked (chunk forwarded by the timer case before its notification was consumed: witness replayed on the real filter); repaired by a fix: commit. Tie: delay_filter.go is rewritten to the virtual clock and given yield points; controlled schedules are executed on the real DelayFilter and compared with the model after every step (queue length, loop and sender positions, forwards with their virtual times).', level_note="Trusted: Lean kernel + standard axioms; Go channel-timer semantics for asynctimerchan=1 as modelled; ticks are never early (positive lateness). timer_never_dead's first wording (armed at most one minute ahead) was false for delays above one minute and is kept as a refuted _statement. The router's minimum delay (processChunks) is not part of these theorems; it is exercised by C01's harness. Fairness of the Go scheduler is assumed for 'eventually forwarded'.",
     trusted=LEAN_TB + ["hand-written transition system Model/Delay.lean tied to delay_filter.go by controlled-schedule runs (vtime + cosched) compared after every step",
                        "Go channel-timer semantics for asynctimerchan=1 as modelled (capacity-1 channel, non-blocking send at expiry, Stop/Reset); ticks are never early and carry a positive lateness",
                        "vrewrite, cosched, vtime"],
     assumptions=["the router's minimum delay (Router.processChunks) is covered by correspondence in C01's harness only; the theorems are about the DelayFilter",
                  "the select of the loop is only exercised when one case is ready (the choice between two ready cases is Go's; both orders are reachable through the other steps)"])
+
+_DL_FILES = ["deadline/deadline.go", "deadline/timer_generic.go"]
+seq(prop="C10", lean_targets=["TransportVerif.Props.C10"], pkg="packetio", run="^TestVerifRDL$", component="rdl",
+    files=["rdl_test.go"], quick_n=100, thorough_n=10000, search_n=600,
+    variants=[dict(name="buffer", overlay_fn=_vtime(_DL_FILES)),
+              dict(name="dpipe", pkg="dpipe", inpkg="dpipe", overlay_fn=_vtime(_DL_FILES)),
+              dict(name="bridge", pkg="test", inpkg="test", overlay_fn=_vtime(_DL_FILES)),
+              dict(name="udpconn", pkg="udp", inpkg="udp", overlay_fn=_vtime(_DL_FILES)),
+              dict(name="vnetudp", pkg="vnet", inpkg="vnet", overlay_fn=_vtime(_DL_FILES + ["vnet/conn.go"]))],
+    nontrivial=["expires-unobserved", "expires-while-blocked", "reset-after-expiry", "read-after-expiry", "read-expired-with-data", "dl-while-blocked"],
+    rule="random histories (8..38 steps) of SetReadDeadline(zero | past | near | far), data arrivals, reads and idle periods under a virtual clock, the same generator against all five "
+         "connection types (packetio.Buffer, dpipe, Bridge endpoint, udp listener Conn, vnet UDPConn); a read runs in its own goroutine and is observed as blocked or finished after "
+         "every step. non-trivial = a deadline expires while nobody reads or while a read is blocked, is reset after expiry, a read starts after expiry (with or without data queued); "
+         "distinct = hash of kind + ops text",
+    design_ref="DESIGN.md 7.10", technique="Lean 4 proof: corollaries of the Deadline theorem (C09) for a reader that checks the deadline signal first and then waits for data or the signal; the same history generator runs against all five connection types under a virtual clock",
+    level_text="PENDING", level_note="PENDING",
+    trusted=LEAN_TB + ["Model/ReadDeadline.lean (a reader on top of Model/Deadline.lean) validated against all five connection types under the virtual clock (deadline package and vnet/conn.go rewritten to vtime)",
+                       "udp.Conn is fed through listener.dispatchMsg (the read loop's own path) instead of the kernel socket"],
+    assumptions=["one Read in flight at a time; timer callbacks are settled before each observation (their interleavings are C09's subject)"])
 
 ALL = SEQ
